@@ -188,7 +188,9 @@ pub fn add_roots(m: &mut walrus::Module, seed: u64) -> String {
     if rng.chance(1, 2) {
         // a function made with the builder (several results: its entry sequence has a multi-value type), exported
         let results: &[walrus::ValType] = if rng.bool() { &[walrus::ValType::I32, walrus::ValType::I64] } else { &[walrus::ValType::F64, walrus::ValType::I32, walrus::ValType::I32] };
-        let mut fb = walrus::FunctionBuilder::new(&mut m.types, &[], results);
+        // (with a parameter, so that the signature of the entry sequence is not the function's own)
+        let param = m.locals.add(walrus::ValType::I32);
+        let mut fb = walrus::FunctionBuilder::new(&mut m.types, &[walrus::ValType::I32], results);
         {
             let mut b = fb.func_body();
             for r in results {
@@ -199,7 +201,7 @@ pub fn add_roots(m: &mut walrus::Module, seed: u64) -> String {
                 };
             }
         }
-        let f = fb.finish(vec![], &mut m.funcs);
+        let f = fb.finish(vec![param], &mut m.funcs);
         m.exports.add("wv_root_built", f);
         what.push("built-multi-value-func");
     }
@@ -297,6 +299,26 @@ pub fn run(input: &[u8], scn: &str, rec: &mut Rec) {
         return;
     }
     if o.has("emit") {
+        if o.has("addfn") {
+            // a function that did not come from the input (no original code range), large enough to be emitted in
+            // front of smaller parsed functions, exported so that it stays
+            let r = guarded(|| {
+                let mut fb = walrus::FunctionBuilder::new(&mut p.module.types, &[], &[]);
+                {
+                    let mut b = fb.func_body();
+                    for k in 0..(20 + (wv_gen::rng::fnv64(input) % 60) as i32) {
+                        b.i32_const(k);
+                        b.drop();
+                    }
+                }
+                let f = fb.finish(vec![], &mut p.module.funcs);
+                p.module.exports.add("wv_added_fn", f);
+            });
+            match r {
+                Ok(()) => rec.push_n("addfn", 1),
+                Err(pan) => rec.push_s("panic.addfn", &pan),
+            }
+        }
         if o.has("ins") {
             match guarded(|| insert_markers(&mut p.module, wv_gen::rng::fnv64(input))) {
                 Ok(n) => rec.push_n("inserted", n),
